@@ -106,6 +106,35 @@ func minimise(bin string, v foundWithJob, race bool) (min FoundViolation, orig F
 		rp.close() // fresh process for the confirmation and for what follows
 	}
 	if got == nil {
+		// Not reproducible as a single run in a fresh process. Runs are deterministic, so the
+		// usual reason is state that the system itself carries from one run to the next inside a
+		// worker process (a package-level variable, a sync.Pool): replay the whole batch the
+		// violation came from, from a fresh process, and look for the same signature.
+		rp.close()
+		bj := *v.job
+		bj.Cfg = v.cfg
+		bj.Cfg.Text = ""
+		w, werr := startWorker(bin, v.cfg.Text, race)
+		if werr != nil {
+			return min, orig, false, werr
+		}
+		res, rerr := w.run(&bj, 10*time.Minute)
+		if rerr != nil {
+			w.kill()
+			if _, died := rerr.(*jobDeath); died {
+				return min, orig, false, nil
+			}
+			return min, orig, false, rerr
+		}
+		w.stop()
+		for i := range res.Violations {
+			if res.Violations[i].V.Sig() == sig {
+				m := res.Violations[i]
+				m.V.Detail = "(reproduces only as part of its batch: the outcome depends on state carried between runs of one worker process)\n" + m.V.Detail
+				m.Batch = &bj
+				return m, orig, true, nil
+			}
+		}
 		return min, orig, false, nil
 	}
 	best := *got
@@ -256,6 +285,9 @@ func writeReplay(prop string, fv FoundViolation, job *Job, cfg JobCfg, orig *Fou
 		jj := *job
 		rf.BatchJob = &jj
 	}
+	if fv.Batch != nil {
+		rf.BatchJob = fv.Batch
+	}
 	if len(rf.EventLog) > 400 {
 		rf.EventLog = append(rf.EventLog[:200], rf.EventLog[len(rf.EventLog)-200:]...)
 	}
@@ -338,6 +370,31 @@ func cmdReplay(args []string) int {
 		if recurs {
 			fmt.Printf("VIOLATION property=%s replay=%s\n  signature: %s\n  %s\n", rf.Property, args[0], rf.Signature, indent(rf.Detail, "  "))
 			return 1
+		}
+		fmt.Printf("replay of %s: the recorded violation (%s) does not occur on the current tree\n", args[0], rf.Signature)
+		return 0
+	}
+	if rf.BatchJob != nil && !rf.Death {
+		w, err := startWorker(bin, rf.Config.Text, rf.Race)
+		if err != nil {
+			fmt.Fprintln(os.Stderr, "simrun: "+err.Error())
+			return 2
+		}
+		bj := *rf.BatchJob
+		bj.Cfg = rf.Config
+		bj.Cfg.Text = ""
+		res, err := w.run(&bj, 15*time.Minute)
+		if err != nil {
+			w.kill()
+			fmt.Fprintln(os.Stderr, "simrun: "+err.Error())
+			return 2
+		}
+		w.stop()
+		for _, v := range res.Violations {
+			if v.V.Sig() == rf.Signature {
+				fmt.Printf("VIOLATION property=%s replay=%s\n  signature: %s\n  %s\n", rf.Property, args[0], rf.Signature, indent(v.V.Detail, "  "))
+				return 1
+			}
 		}
 		fmt.Printf("replay of %s: the recorded violation (%s) does not occur on the current tree\n", args[0], rf.Signature)
 		return 0
@@ -426,6 +483,65 @@ func classifyDeath(prop string, d *jobDeath) (rule, culprit string) {
 		msg = msg[:80]
 	}
 	return "M-crash", strings.TrimPrefix(fr, "servitor/") + ":" + msg
+}
+
+// selfEvident: the death already carries its own proof. A race-detector report is a fact about
+// the execution that produced it (no false positives), and a Go runtime fatal error or unrecovered
+// panic with frames of the system under test means the process killed itself. Such deaths count
+// even if they do not recur (they may depend on thread timing or on state carried between runs).
+func selfEvident(prop string, d *jobDeath) (FoundViolation, bool) {
+	if d == nil || d.timeout || d.memory || d.stderr == "" {
+		return FoundViolation{}, false
+	}
+	rule, culprit := classifyDeath(prop, d)
+	if rule == "M-race" && culprit != "harness-only" {
+		return FoundViolation{V: Violation{Prop: prop, Rule: rule, Culprit: culprit, Detail: d.Error()}}, true
+	}
+	if rule == "M-crash" && faultingGoroutineIsSystem(d.stderr) {
+		return FoundViolation{V: Violation{Prop: prop, Rule: rule, Culprit: culprit, Detail: d.Error()}}, true
+	}
+	return FoundViolation{}, false
+}
+
+// faultingGoroutineIsSystem: the process died of a panic or of a runtime fatal error raised in
+// one goroutine (not a global "all goroutines are asleep"), and that goroutine's stack — the
+// first one in the dump — is inside the system under test, not in the harness.
+func faultingGoroutineIsSystem(stderr string) bool {
+	i := strings.Index(stderr, "\npanic:")
+	if strings.HasPrefix(stderr, "panic:") {
+		i = 0
+	}
+	if i < 0 {
+		for _, m := range []string{"fatal error: concurrent map", "fatal error: sync:", "fatal error: stack overflow", "fatal error: unexpected signal"} {
+			if j := strings.Index(stderr, m); j >= 0 {
+				i = j
+				break
+			}
+		}
+	}
+	if i < 0 {
+		return false
+	}
+	rest := stderr[i:]
+	g := strings.Index(rest, "\ngoroutine ")
+	if g < 0 {
+		return false
+	}
+	block := rest[g+1:]
+	if e := strings.Index(block, "\n\n"); e >= 0 {
+		block = block[:e]
+	}
+	sys := false
+	for _, l := range strings.Split(block, "\n") {
+		if strings.HasPrefix(l, "servitor/") && !strings.HasPrefix(l, "servitor/verifshim") && !strings.HasPrefix(l, "servitor/verifsim") {
+			sys = true
+		}
+		if strings.HasPrefix(l, "servitor/verifsim.") && !sys {
+			// harness frame closer to the fault than any system frame
+			return false
+		}
+	}
+	return sys
 }
 
 func confirmDeath(bins map[bool]string, o jobOutcome, prop string) (FoundViolation, bool, error) {
